@@ -208,7 +208,18 @@ def tagsOf (key : String) (A : Arr) : List String :=
   [key, if A.size ≤ 2 then "const" else "nonconst", if n ≤ maxTT then "tt" else "big",
    if hasGap A then "gap" else "nogap", s!"sz{Nat.log2 (A.size + 1)}"]
 
+/-- The runner reports a case that did not finish as the observation `hang`. On the oracle-built canonical
+    operands (`sel`, `rand`, `wide`, `widerand`) not returning violates the statement; where the operand is the
+    result of another operation or is not canonical the property claims nothing about the case as a whole
+    (the operation itself may be what hangs): a plain disagreement. -/
+def hangVerdict (key : String) : Verdict :=
+  if key == "C11.sel" || key == "C11.rand" || key == "C11.wide" || key == "C11.widerand" then
+    { agree := false, model := "returns", fail := some "selector-does-not-return", nontrivial := false, tags := ["hang"] }
+  else
+    { agree := false, model := "returns", fail := none, nontrivial := false, tags := ["hang"] }
+
 def handle (key : String) (ins obs : List String) : Verdict :=
+  if obs == ["hang"] then hangVerdict key else
   match key, ins with
   | "C11.sel", [a] =>
     match parseArr? a with
@@ -242,12 +253,15 @@ def handle (key : String) (ins obs : List String) : Verdict :=
       | some A =>
         let model := modelSelN A n
         let o := oracleOfN A n
+        -- Exact terminal entries are a validity property of the OPERATION's result (C02 / C07 / C17), not part of
+        -- this property's statement: they are recorded as a tag. What C11 claims is evaluated below from the truth
+        -- table of the printed result with the variable count given by the inputs.
         let fail := firstFail [
-          if terminalsExact A n then none else some "terminals-exact",
           if sel.contains "panic" then some "selector-panics" else none,
           checkSelPaths A o sel, if n ≤ maxTT then checkSelTT o sel else none]
         { agree := model == sel, model := " ".intercalate model, fail, nontrivial := A.size > 2,
-          tags := ["op", op, if A.size ≤ 2 then "const" else "nonconst", if isCanon A then "canon" else "noncanon"] ++
+          tags := ["op", op, if A.size ≤ 2 then "const" else "nonconst", if isCanon A then "canon" else "noncanon",
+                   if terminalsExact A n then "terminals-exact" else "terminals-inexact"] ++
             (match sel with
              | [_, _, _, _, _, _, _, _, _, _, isc, isv] => [if isc == "1" then "cube" else "noncube", if isv == "1" then "single" else "nonsingle"]
              | _ => []) }
@@ -264,11 +278,11 @@ def handle (key : String) (ins obs : List String) : Verdict :=
         let model := modelRandN A n fl
         let o : Oracle := { n, sat := [], paths := allPathsN A n }
         let fail := firstFail [
-          if terminalsExact A n then none else some "terminals-exact",
           if sel.contains "panic" then some "selector-panics" else none,
           checkRand A o sel]
         { agree := model == sel, model := " ".intercalate model, fail, nontrivial := A.size > 2,
-          tags := ["oprand", op, if fl.length < n then "shortflips" else "flips"] }
+          tags := ["oprand", op, if fl.length < n then "shortflips" else "flips",
+                   if terminalsExact A n then "terminals-exact" else "terminals-inexact"] }
       | none => Verdict.bad "result"
     | _, _ => Verdict.bad "args"
   | "C11.wide", _ => C11Wide.handleWide key ins obs
